@@ -6,13 +6,13 @@ from check import canon_exc, hx
 from props.c12 import rand_tower, budgeted
 
 MANIFEST = {
-    "text": "Lean theorems: port_is_first_tcp (the port returned is that of the first tower having a TCP floor; a non-zero status or no TCP floor is ValueError), firstTcp_spec, towersUnpack_bounded (every iteration of the repaired tower loop consumes ≥ 14 bytes, so the number of towers decoded and the work are bounded by the reply length whatever count the reply announces — 2^64−1 included), floorsUnpack_bounded; the tower padding kernels and the exhaustion guard are regenerated from source; EptMapResult.unpack and _process_ept_map_result are tied to the model by correspondence on replies produced by an independent NDR64 encoder (0..6 towers, floor payloads covering every tower-length residue mod 8, unknown protocols, TCP floor position) and on adversarial byte strings (tower / floor counts up to 2^64−1, truncations) under a line-event budget; eptMapResult_roundtrip (decode(encode r) = r for EVERY well-formed reply: any floors of the five kinds, any number of towers, every tower length residue mod 8, entry handle, referents) and wellformed_reply_gives_port (so a well-formed reply with status 0 yields the port of the first tower with a TCP floor)",
+    "text": "Lean theorems: port_is_first_tcp (the port returned is that of the first tower having a TCP floor; a non-zero status or no TCP floor is ValueError), firstTcp_spec, towersUnpack_bounded (every iteration of the repaired tower loop consumes ≥ 14 bytes, so the number of towers decoded and the work are bounded by the reply length whatever count the reply announces — 2^64−1 included), floorsUnpack_bounded; the tower padding kernels and the exhaustion guard are regenerated from source; EptMapResult.unpack and _process_ept_map_result are tied to the model by correspondence on replies produced by an independent NDR64 encoder (0..6 towers, floor payloads covering every tower-length residue mod 8, unknown protocols, TCP floor position) and on adversarial byte strings (tower / floor counts up to 2^64−1, truncations) under a line-event budget; eptMapResult_roundtrip (decode(encode r) = r for EVERY well-formed reply: any floors of the five kinds, any number of towers, every tower length residue mod 8, entry handle, referents) and wellformed_reply_gives_port (so a well-formed reply with status 0 yields the port of the first tower with a TCP floor); eptMap_roundtrip (the ept_map REQUEST: decode(encode m) = m for every well-formed request, object UUID present or absent, any tower, NDR64 padding skipped exactly)",
     "note": "Trusted: Lean kernel; model (differential tie + kernels); the reading of NDR64 (8-byte conformance, 8-aligned towers) in the harness's independent encoder; memory is bounded by the same argument as time (one list cell per decoded floor), not measured",
     "technique": "Lean 4 proof (decision logic + decreasing-measure work bound, ∀ bytes) + kernel extraction + reference-encoder / adversarial correspondence under a step budget",
 }
 MODULES = ["DpapiNg.Properties.C18", "DpapiNg.Properties.C18Rt"]
 THEOREMS = ["DpapiNg.C18.port_is_first_tcp", "DpapiNg.C18.firstTcp_spec", "DpapiNg.C18.firstTcp_none", "DpapiNg.C18.towersUnpack_len", "DpapiNg.C18.towersUnpack_error_mono", "DpapiNg.C18.towersUnpack_bounded", "DpapiNg.C18.floorsUnpack_len", "DpapiNg.C18.tower_padding_aligned",
-            "DpapiNg.C18.floor_rt", "DpapiNg.C18.towerStep_entry", "DpapiNg.C18.towers_rt", "DpapiNg.C18.eptMapResult_roundtrip", "DpapiNg.C18.wellformed_reply_gives_port"]
+            "DpapiNg.C18.floor_rt", "DpapiNg.C18.towerStep_entry", "DpapiNg.C18.towers_rt", "DpapiNg.C18.eptMapResult_roundtrip", "DpapiNg.C18.wellformed_reply_gives_port", "DpapiNg.C18.eptMap_roundtrip"]
 RULE = ("reference-encoded replies: 0..6 towers, tower lengths covering every residue mod 8, unknown floor protocols, TCP floor in every position / absent, status codes {0, non-zero}, trailing "
         "alignment padding 0..7; adversarial: tower counts and floor counts up to 2^64-1, truncations at every offset, random bytes; line-event budget 40·len+4000; distinct by op line")
 ASSUMPTIONS = ["well-formed = the NDR64 encoding of ept_map's [out] parameters as produced by the independent encoder"]
